@@ -167,6 +167,9 @@ where
     }
 
     pub fn is_used(&self, value: T) -> bool {
+        if value < self.lowest || value > self.highest {
+            return false;
+        }
         !self.pool.iter().any(|iv| iv.contains(value))
     }
 
